@@ -484,6 +484,34 @@ func Q_unbound_after_failed_execution() {
 	vnd.Reach("executed")
 }
 `)
+	b.WriteString(`
+type qHolder struct{ F int64 }
+
+// both binding operators on injected targets (a pointer-injected scalar, a field of an injected struct) reach the host
+func Q_bind_operators_on_injected() {
+	for _, op := range []string{"=", ":="} {
+		x0, c := vnd.Int64("x0"), vnd.Int64("c")
+		n := x0
+		h := &qHolder{F: x0}
+		dc := context.NewDataContext()
+		dc.Add("N", &n)
+		dc.Add("H", h)
+		dc.Add("c", c)
+		rb := builder.NewRuleBuilder(dc)
+		must(rb.BuildRuleFromString("rule \"r\" begin\n N "+op+" c\n H.F "+op+" c + 2\n loc "+op+" c\n loc += 2\n return loc\nend\n"), "build")
+		eng := engine.NewGengine()
+		err := eng.Execute(rb, true)
+		res, _ := eng.GetRulesResultMap()
+		vnd.Assert(err == nil, "binding an injected target succeeds")
+		vnd.Assert(n == c, "= and := bind the injected target: the host observes the value")
+		vnd.Assert(h.F == c+2, "= and := bind the injected field: the host observes the value")
+		r, ok := res["r"].(int64)
+		vnd.Assert(ok && r == c+2, "the rule reads back what it bound")
+	}
+	vnd.Reach("executed")
+}
+`)
+	fam.Instances = append(fam.Instances, Instance{Func: "Q_bind_operators_on_injected", Stratum: "clause:bind", Desc: "= and := on pointer-injected and field targets", Expect: []string{"executed"}})
 	fam.Instances = append(fam.Instances, Instance{Func: "Q_unbound_after_failed_execution", Stratum: "clause:unbound", Desc: "a failed execution's locals are gone in the next execution", Expect: []string{"executed"}})
 	b.WriteString(`
 // forRange over a map visits the keys the map had when the loop started, each once, whatever the body adds or removes
